@@ -508,4 +508,949 @@ theorem lastJump_none (l : Name) (ss : List Stmt) : ∀ ix, lastJumpFrom l ix ss
         · exact hj ((isJumpTo_iff l s).2 ⟨c, h.symm⟩)
         · exact hr ⟨c, h⟩
 
+/-- `lastJumpFrom l ix ss = some j` says: `j - ix` is the position of the *last* jump to `l` in `ss` -/
+theorem lastJump_spec (l : Name) (ss : List Stmt) : ∀ (ix j : Nat), lastJumpFrom l ix ss = some j ↔
+    ∃ k : Nat, j = ix + k ∧ (∃ c, ss[k]? = some (.jump l c)) ∧
+      ∀ k' : Nat, k < k' → ∀ c, ss[k']? ≠ some (.jump l c) := by
+  induction ss with
+  | nil => intro ix j; simp [lastJumpFrom]
+  | cons s r ih =>
+    intro ix j
+    rw [lastJumpFrom]
+    cases hlj : lastJumpFrom l (ix + 1) r with
+    | some j' =>
+      obtain ⟨k₀, rfl, ⟨c₀, hc₀⟩, hlast⟩ := (ih (ix + 1) j').1 hlj
+      simp only [Option.some.injEq]
+      constructor
+      · rintro rfl
+        refine ⟨k₀ + 1, by omega, ⟨c₀, by simpa using hc₀⟩, fun k' hk' c => ?_⟩
+        cases k' with
+        | zero => omega
+        | succ k' => simpa using hlast k' (by omega) c
+      · rintro ⟨k, rfl, ⟨c, hc⟩, hl⟩
+        cases k with
+        | zero => exact absurd (by simpa using hc₀) (hl (k₀ + 1) (by omega) c₀)
+        | succ k =>
+          have : lastJumpFrom l (ix + 1) r = some (ix + 1 + k) :=
+            (ih (ix + 1) _).2 ⟨k, rfl, ⟨c, by simpa using hc⟩, fun k' hk' c' => by
+              simpa using hl (k' + 1) (by omega) c'⟩
+          rw [hlj] at this
+          simp only [Option.some.injEq] at this
+          omega
+    | none =>
+      have hnj : ¬ JumpsTo r l := (lastJump_none l r (ix + 1)).1 hlj
+      have hr : ∀ (k : Nat) c, r[k]? ≠ some (.jump l c) := fun k c h => hnj ⟨c, List.mem_of_getElem? h⟩
+      by_cases hj : isJumpTo l s = true
+      · obtain ⟨c, rfl⟩ := (isJumpTo_iff l s).1 hj
+        simp only [hj, if_true, Option.some.injEq]
+        constructor
+        · rintro rfl
+          refine ⟨0, rfl, ⟨c, rfl⟩, fun k' hk' c' => ?_⟩
+          cases k' with
+          | zero => omega
+          | succ k' => simpa using hr k' c'
+        · rintro ⟨k, rfl, ⟨c', hc'⟩, _⟩
+          cases k with
+          | zero => rfl
+          | succ k => exact absurd (by simpa using hc') (hr k c')
+      · simp only [hj, Bool.false_eq_true, if_false, reduceCtorEq, false_iff]
+        rintro ⟨k, _, ⟨c', hc'⟩, _⟩
+        cases k with
+        | zero =>
+          simp only [List.getElem?_cons_zero, Option.some.injEq] at hc'
+          exact hj ((isJumpTo_iff l s).2 ⟨c', hc'⟩)
+        | succ k => exact absurd (by simpa using hc') (hr k c')
+
+/-! ## `sorted(d.keys())` -/
+
+theorem mem_sortNames (a : Name) (ns : List Name) : a ∈ sortNames ns ↔ a ∈ ns :=
+  (List.mergeSort_perm ns _).mem_iff
+
+theorem nodup_sortNames {ns : List Name} (h : ns.Nodup) : (sortNames ns).Nodup :=
+  (List.mergeSort_perm ns _).nodup_iff.2 h
+
+/-- the order of the after-loop reports: ascending code-point order of the names -/
+theorem sorted_sortNames (ns : List Name) : (sortNames ns).Pairwise (fun a b => a.render ≤ b.render) := by
+  have h := List.pairwise_mergeSort (le := fun a b : Name => decide (a.render ≤ b.render))
+    (fun a b c hab hbc => by
+      simp only [decide_eq_true_eq] at hab hbc ⊢
+      exact String.le_trans hab hbc)
+    (fun a b => by
+      simp only [Bool.or_eq_true, decide_eq_true_eq]
+      exact String.le_total _ _) ns
+  exact h.imp (fun hab => by simpa using hab)
+
+theorem filterMap_ite {α β : Type} (c : α → Bool) (g : α → β) (l : List α) :
+    l.filterMap (fun x => if c x = true then none else some (g x)) = (l.filter (fun x => !c x)).map g := by
+  induction l with
+  | nil => rfl
+  | cons x xs ih => by_cases h : c x = true <;> simp [h, ih]
+
+/-! ## The warnings of one scope -/
+
+/-- final loop state of a linted scope: the global list, or the body of a top-level function -/
+def scopeState : Scope → List Stmt → LoopState
+  | .global, ss => globalLoop ss
+  | .fn f, ss => fnLoop f ss
+
+/-- the unknown-label reports lint emits for the scope `sc` whose statement list is `ss` -/
+def unknownWarnings (sc : Scope) (ss : List Stmt) : List Warning :=
+  unknownLabelW sc (scopeState sc ss).ldefs (scopeState sc ss).lused
+
+/-- the unused-label reports of the scope -/
+def unusedWarnings (sc : Scope) (ss : List Stmt) : List Warning :=
+  unusedLabelW sc (scopeState sc ss).ldefs (scopeState sc ss).lused
+
+/-- the warnings emitted inside the statement loop of the scope -/
+def loopWarnings (sc : Scope) (ss : List Stmt) : List Warning := (scopeState sc ss).warnings
+
+theorem scope_ldefs (sc : Scope) (ss : List Stmt) : (scopeState sc ss).ldefs = scan defStep 0 ss [] := by
+  cases sc <;> simp only [scopeState, globalLoop, fnLoop, loop_ldefs]
+
+theorem scope_lused (sc : Scope) (ss : List Stmt) : (scopeState sc ss).lused = scan useStep 0 ss [] := by
+  cases sc <;> simp only [scopeState, globalLoop, fnLoop, loop_lused]
+
+theorem scope_ldefs_mem (sc ss l) : l ∈ (scopeState sc ss).ldefs.keys ↔ DefinedIn ss l := by
+  rw [scope_ldefs, defs_mem]; simp
+
+theorem scope_lused_mem (sc ss l) : l ∈ (scopeState sc ss).lused.keys ↔ JumpsTo ss l := by
+  rw [scope_lused, uses_mem]; simp
+
+/-- `findLabel`: the interpreter's label search — index of the first `label l` statement of the list, if any -/
+def findLabel (l : Name) (ss : List Stmt) : Option Nat := ss.findIdx? (isLabel l)
+
+theorem findLabel_none (l : Name) (ss : List Stmt) : findLabel l ss = none ↔ ¬ DefinedIn ss l := by
+  rw [findLabel, List.findIdx?_eq_none_iff, ← any_isLabel]
+  simp
+
+theorem findLabel_some (l : Name) (ss : List Stmt) (i : Nat) :
+    findLabel l ss = some i ↔ ss[i]? = some (.label l) ∧ ∀ j, j < i → ss[j]? ≠ some (.label l) := by
+  rw [findLabel, List.findIdx?_eq_some_iff_getElem]
+  constructor
+  · rintro ⟨hi, hp, hlt⟩
+    refine ⟨?_, fun j hj hs => ?_⟩
+    · rw [List.getElem?_eq_getElem hi, (isLabel_iff l _).1 hp]
+    · have hj' : j < ss.length := Nat.lt_trans hj hi
+      have := hlt j hj
+      rw [List.getElem?_eq_getElem hj'] at hs
+      simp only [Option.some.injEq] at hs
+      rw [hs] at this
+      simp [isLabel] at this
+  · rintro ⟨hs, hlt⟩
+    obtain ⟨hi, hs'⟩ := List.getElem?_eq_some_iff.1 hs
+    refine ⟨hi, by rw [hs']; simp [isLabel], fun j hj => ?_⟩
+    have hj' : j < ss.length := Nat.lt_trans hj hi
+    have := hlt j hj
+    rw [List.getElem?_eq_getElem hj'] at this
+    intro hp
+    exact this (by rw [(isLabel_iff l _).1 hp])
+
+/-- **unknown_label_exact.**  For every scope `ss` (global statement list or body of a top-level function): the
+unknown-label warnings are `us.map …` for a list `us` of (label, index) pairs that has no repeated label, is in ascending
+order of the label names, and contains `(l, j)` exactly when `l ∈ unknownLabels ss` — some jump of the scope targets `l`
+and the scope does not define `l` — with `j` the index of the last jump to `l`. -/
+theorem unknown_label_exact (sc : Scope) (ss : List Stmt) :
+    ∃ us : List (Name × Nat),
+      unknownWarnings sc ss = us.map (fun p => Warning.unknownLabel sc p.1 p.2) ∧
+      (us.map (·.1)).Nodup ∧
+      (us.map (·.1)).Pairwise (fun a b => a.render ≤ b.render) ∧
+      ∀ l j, (l, j) ∈ us ↔ UnknownLabel ss l ∧ lastJumpFrom l 0 ss = some j := by
+  let ld := (scopeState sc ss).ldefs
+  let lu := (scopeState sc ss).lused
+  let ks := lu.sortedKeys.filter (fun l => !ld.has l)
+  refine ⟨ks.map (fun l => (l, lu.get l)), ?_, ?_, ?_, ?_⟩
+  · simp only [unknownWarnings, unknownLabelW, filterMap_ite, List.map_map]
+    rfl
+  · have : (ks.map (fun l => (l, lu.get l))).map (·.1) = ks := by simp [List.map_map, Function.comp_def]
+    rw [this]
+    refine List.Pairwise.filter _ ?_
+    apply nodup_sortNames
+    show (scopeState sc ss).lused.keys.Nodup
+    rw [scope_lused]
+    exact uses_nodup ss 0 [] List.nodup_nil
+  · have : (ks.map (fun l => (l, lu.get l))).map (·.1) = ks := by simp [List.map_map, Function.comp_def]
+    rw [this]
+    exact (sorted_sortNames _).filter _
+  · intro l j
+    simp only [List.mem_map, Prod.mk.injEq, ks, List.mem_filter, Dict.sortedKeys, mem_sortNames]
+    have hget : lu.get l = match lastJumpFrom l 0 ss with | some j => j | none => 0 := by
+      show (scopeState sc ss).lused.get l = _
+      rw [scope_lused, uses_get]; rfl
+    constructor
+    · rintro ⟨a, ⟨hm, hd⟩, rfl, rfl⟩
+      have hj : JumpsTo ss a := (scope_lused_mem sc ss a).1 hm
+      have hnd : ¬ DefinedIn ss a := by
+        intro h
+        have := (has_iff ld a).2 ((scope_ldefs_mem sc ss a).2 h)
+        simp [this] at hd
+      refine ⟨⟨hj, hnd⟩, ?_⟩
+      cases h : lastJumpFrom a 0 ss with
+      | none => exact absurd hj ((lastJump_none a ss 0).1 h)
+      | some j => rw [hget, h]
+    · rintro ⟨⟨hj, hnd⟩, hl⟩
+      refine ⟨l, ⟨(scope_lused_mem sc ss l).2 hj, ?_⟩, rfl, by rw [hget, hl]⟩
+      have : ld.has l = false := (has_false_iff ld l).2 (fun h => hnd ((scope_ldefs_mem sc ss l).1 h))
+      simp [this]
+
+/-- **unknown_label_iff_findLabel_none** (bridge to the machine).  The scope reports label `l` as unknown exactly when
+some jump of the scope targets `l` and the interpreter's label search `findLabel l` over the same list fails — i.e. exactly
+for the jumps that raise `Unknown jump label` when taken. -/
+theorem unknown_label_iff_findLabel_none (sc : Scope) (ss : List Stmt) (l : Name) :
+    (∃ j, Warning.unknownLabel sc l j ∈ unknownWarnings sc ss) ↔ JumpsTo ss l ∧ findLabel l ss = none := by
+  obtain ⟨us, hus, -, -, hmem⟩ := unknown_label_exact sc ss
+  rw [findLabel_none, hus]
+  constructor
+  · rintro ⟨j, hj⟩
+    obtain ⟨p, hp, he⟩ := List.mem_map.1 hj
+    obtain ⟨a, b⟩ := p
+    simp only [Warning.unknownLabel.injEq, true_and] at he
+    obtain ⟨rfl, rfl⟩ := he
+    exact ((hmem a b).1 hp).1
+  · rintro ⟨hj, hnd⟩
+    cases h : lastJumpFrom l 0 ss with
+    | none => exact absurd hj ((lastJump_none l ss 0).1 h)
+    | some j => exact ⟨j, List.mem_map.2 ⟨(l, j), (hmem l j).2 ⟨⟨hj, hnd⟩, h⟩, rfl⟩⟩
+
+/-- for one particular jump statement of the scope: its target is reported iff `findLabel` fails -/
+theorem jump_reported_iff_findLabel_none (sc : Scope) (ss : List Stmt) (l : Name) (c : Option Expr)
+    (h : Stmt.jump l c ∈ ss) :
+    (∃ j, Warning.unknownLabel sc l j ∈ unknownWarnings sc ss) ↔ findLabel l ss = none := by
+  rw [unknown_label_iff_findLabel_none]
+  exact ⟨fun h => h.2, fun h' => ⟨⟨c, h⟩, h'⟩⟩
+
+/-- **unused_label_exact.**  The unused-label warnings of a scope: one per label that the scope defines and no jump of the
+scope targets, in ascending order of the names, each with the index of the label's first definition. -/
+theorem unused_label_exact (sc : Scope) (ss : List Stmt) :
+    ∃ us : List (Name × Nat),
+      unusedWarnings sc ss = us.map (fun p => Warning.unusedLabel sc p.1 p.2) ∧
+      (us.map (·.1)).Nodup ∧
+      (us.map (·.1)).Pairwise (fun a b => a.render ≤ b.render) ∧
+      ∀ l i, (l, i) ∈ us ↔ UnusedLabel ss l ∧ findLabel l ss = some i := by
+  let ld := (scopeState sc ss).ldefs
+  let lu := (scopeState sc ss).lused
+  let ks := ld.sortedKeys.filter (fun l => !lu.has l)
+  refine ⟨ks.map (fun l => (l, ld.get l)), ?_, ?_, ?_, ?_⟩
+  · simp only [unusedWarnings, unusedLabelW, filterMap_ite, List.map_map]
+    rfl
+  · have : (ks.map (fun l => (l, ld.get l))).map (·.1) = ks := by simp [List.map_map, Function.comp_def]
+    rw [this]
+    refine List.Pairwise.filter _ ?_
+    apply nodup_sortNames
+    show (scopeState sc ss).ldefs.keys.Nodup
+    rw [scope_ldefs]
+    exact defs_nodup ss 0 [] List.nodup_nil
+  · have : (ks.map (fun l => (l, ld.get l))).map (·.1) = ks := by simp [List.map_map, Function.comp_def]
+    rw [this]
+    exact (sorted_sortNames _).filter _
+  · intro l i
+    simp only [List.mem_map, Prod.mk.injEq, ks, List.mem_filter, Dict.sortedKeys, mem_sortNames]
+    have hget : ld.get l = match findLabel l ss with | some i => i | none => 0 := by
+      show (scopeState sc ss).ldefs.get l = _
+      rw [scope_ldefs, defs_get]
+      simp only [keys_nil, List.not_mem_nil, if_false, findLabel]
+      cases List.findIdx? (isLabel l) ss <;> simp
+    constructor
+    · rintro ⟨a, ⟨hm, hu⟩, rfl, rfl⟩
+      have hd : DefinedIn ss a := (scope_ldefs_mem sc ss a).1 hm
+      have hnj : ¬ JumpsTo ss a := by
+        intro h
+        have := (has_iff lu a).2 ((scope_lused_mem sc ss a).2 h)
+        simp [this] at hu
+      refine ⟨⟨hd, hnj⟩, ?_⟩
+      cases h : findLabel a ss with
+      | none => exact absurd hd ((findLabel_none a ss).1 h)
+      | some i => rw [hget, h]
+    · rintro ⟨⟨hd, hnj⟩, hl⟩
+      refine ⟨l, ⟨(scope_ldefs_mem sc ss l).2 hd, ?_⟩, rfl, by rw [hget, hl]⟩
+      have : lu.has l = false := (has_false_iff lu l).2 (fun h => hnj ((scope_lused_mem sc ss l).1 h))
+      simp [this]
+
+/-! ## Which warnings each piece of lint can emit -/
+
+theorem lint_decomp (ss : List Stmt) :
+    lint ss = (if ss.isEmpty then [.emptyScript] else []) ++
+      usedBeforeW .global [] (varScan 0 ss [] []).1 (varScan 0 ss [] []).2 ++
+      loopWarnings .global ss ++ unusedWarnings .global ss ++ unknownWarnings .global ss := rfl
+
+theorem lintFunction_decomp (ix : Nat) (f : Name) (args : List Name) (body : List Stmt) :
+    lintFunction ix f args body =
+      usedBeforeW (.fn f) args (varScan 0 body [] []).1 (varScan 0 body [] []).2 ++
+      unusedVarW f (varScan 0 body [] []).1 (varScan 0 body [] []).2 ++
+      argLoop f ix (varScan 0 body [] []).2 [] args ++
+      loopWarnings (.fn f) body ++ unusedWarnings (.fn f) body ++ unknownWarnings (.fn f) body := rfl
+
+theorem mem_usedBeforeW {w sc skip a u} (h : w ∈ usedBeforeW sc skip a u) : ∃ v i j, w = .usedBefore sc v i j := by
+  simp only [usedBeforeW, List.mem_filterMap] at h
+  obtain ⟨v, _, hv⟩ := h
+  split at hv
+  · cases hv
+  · split at hv
+    · exact ⟨v, _, _, (Option.some.inj hv).symm⟩
+    · cases hv
+
+theorem mem_unusedVarW {w f a u} (h : w ∈ unusedVarW f a u) : ∃ v i, w = .unusedVar f v i := by
+  simp only [unusedVarW, List.mem_filterMap] at h
+  obtain ⟨v, _, hv⟩ := h
+  split at hv
+  · cases hv
+  · exact ⟨v, _, (Option.some.inj hv).symm⟩
+
+theorem mem_argLoop_shape {w f ix u} (args : List Name) : ∀ seen, w ∈ argLoop f ix u seen args →
+    (∃ a, w = .dupArg f a ix) ∨ (∃ a, w = .unusedArg f a ix) := by
+  induction args with
+  | nil => intro seen h; simp [argLoop] at h
+  | cons a r ih =>
+    intro seen h
+    rw [argLoop] at h
+    split at h
+    · rcases List.mem_cons.1 h with h | h
+      · exact Or.inl ⟨a, h⟩
+      · exact ih _ h
+    · rcases List.mem_append.1 h with h | h
+      · split at h
+        · simp at h
+        · exact Or.inr ⟨a, by simpa using h⟩
+      · exact ih _ h
+
+theorem mem_unusedLabelW {w sc ld lu} (h : w ∈ unusedLabelW sc ld lu) : ∃ l i, w = .unusedLabel sc l i := by
+  simp only [unusedLabelW, List.mem_filterMap] at h
+  obtain ⟨v, _, hv⟩ := h
+  split at hv
+  · cases hv
+  · exact ⟨v, _, (Option.some.inj hv).symm⟩
+
+theorem mem_unknownLabelW {w sc ld lu} (h : w ∈ unknownLabelW sc ld lu) : ∃ l i, w = .unknownLabel sc l i := by
+  simp only [unknownLabelW, List.mem_filterMap] at h
+  obtain ⟨v, _, hv⟩ := h
+  split at hv
+  · cases hv
+  · exact ⟨v, _, (Option.some.inj hv).symm⟩
+
+/-- a warning that speaks about function `f` (its scope is `.fn f`, or it names `f` as the function) -/
+def inFn (f : Name) : Warning → Prop
+  | .usedBefore sc _ _ _ => sc = .fn f
+  | .unusedVar g _ _ => g = f
+  | .dupArg g _ _ => g = f
+  | .unusedArg g _ _ => g = f
+  | .pointless sc _ => sc = .fn f
+  | .redefLabel sc _ _ => sc = .fn f
+  | .unusedLabel sc _ _ => sc = .fn f
+  | .unknownLabel sc _ _ => sc = .fn f
+  | _ => False
+
+theorem any_take {α : Type} (p : α → Bool) (l : List α) (k : Nat) :
+    (l.take k).any p = true ↔ ∃ j, j < k ∧ ∃ s, l[j]? = some s ∧ p s = true := by
+  simp only [List.any_eq_true, List.mem_take_iff_getElem]
+  constructor
+  · rintro ⟨s, ⟨j, hj, rfl⟩, hp⟩
+    exact ⟨j, by omega, _, List.getElem?_eq_getElem (by omega), hp⟩
+  · rintro ⟨j, hj, s, hs, hp⟩
+    obtain ⟨hl, rfl⟩ := List.getElem?_eq_some_iff.1 hs
+    exact ⟨_, ⟨j, by omega, rfl⟩, hp⟩
+
+/-- inside a function body the loop emits only pointless-statement and label-redefinition warnings of that function -/
+theorem mem_fn_loop {w f} {body : List Stmt} (h : w ∈ loopWarnings (.fn f) body) :
+    (∃ i, w = .pointless (.fn f) i) ∨ (∃ l i, w = .redefLabel (.fn f) l i) := by
+  obtain ⟨k, s, _, hw⟩ := (mem_loop_warnings body).1 h
+  cases s with
+  | expr nm e =>
+    simp only [stmtW] at hw
+    split at hw
+    · exact Or.inl ⟨k, by simpa using hw⟩
+    · simp at hw
+  | label l =>
+    simp only [stmtW] at hw
+    split at hw
+    · exact Or.inr ⟨l, k, by simpa using hw⟩
+    · simp at hw
+  | _ => simp [stmtW] at hw
+
+theorem lintFunction_inFn {w ix f args body} (h : w ∈ lintFunction ix f args body) : inFn f w := by
+  rw [lintFunction_decomp] at h
+  simp only [List.mem_append] at h
+  rcases h with ((((h | h) | h) | h) | h) | h
+  · obtain ⟨_, _, _, rfl⟩ := mem_usedBeforeW h; rfl
+  · obtain ⟨_, _, rfl⟩ := mem_unusedVarW h; rfl
+  · rcases mem_argLoop_shape args [] h with ⟨_, rfl⟩ | ⟨_, rfl⟩ <;> rfl
+  · rcases mem_fn_loop h with ⟨_, rfl⟩ | ⟨_, _, rfl⟩ <;> rfl
+  · obtain ⟨_, _, rfl⟩ := mem_unusedLabelW h; rfl
+  · obtain ⟨_, _, rfl⟩ := mem_unknownLabelW h; rfl
+
+/-- what the global loop emits: function redefinitions, the block of each function statement, pointless global
+statements, global label redefinitions -/
+theorem mem_global_loop {w} {ss : List Stmt} : w ∈ loopWarnings .global ss ↔
+    (∃ f i, w = .redefFunction f i ∧ RedefinedFunctionAt ss f i) ∨
+    (∃ i k f a v y b, ss[i]? = some (.function k f a v y b) ∧ w ∈ lintFunction i f a b) ∨
+    (∃ i e, w = .pointless .global i ∧ ss[i]? = some (.expr none e) ∧ isPointless e = true) ∨
+    (∃ l i, w = .redefLabel .global l i ∧ RedefinedLabelAt ss l i) := by
+  show w ∈ (scopeLoop .global lintFunction 0 ss {}).warnings ↔ _
+  rw [mem_loop_warnings]
+  constructor
+  · rintro ⟨k, s, hk, hw⟩
+    cases s with
+    | function n f a v y b =>
+      simp only [stmtW, List.mem_append] at hw
+      rcases hw with hw | hw
+      · split at hw
+        · rename_i hany
+          left
+          refine ⟨f, k, by simpa using hw, ⟨n, a, v, y, b, hk⟩, ?_⟩
+          obtain ⟨j, hj, s, hs, hp⟩ := (any_take _ _ _).1 hany
+          obtain ⟨n', a', v', y', b', rfl⟩ := (isFn_iff f s).1 hp
+          exact ⟨j, hj, n', a', v', y', b', hs⟩
+        · simp at hw
+      · exact Or.inr (Or.inl ⟨k, n, f, a, v, y, b, hk, hw⟩)
+    | expr nm e =>
+      simp only [stmtW] at hw
+      split at hw
+      · rename_i hp
+        simp only [Bool.and_eq_true, Option.isNone_iff_eq_none] at hp
+        obtain ⟨rfl, hp⟩ := hp
+        exact Or.inr (Or.inr (Or.inl ⟨k, e, by simpa using hw, hk, hp⟩))
+      · simp at hw
+    | label l =>
+      simp only [stmtW] at hw
+      split at hw
+      · rename_i hany
+        obtain ⟨j, hj, s, hs, hp⟩ := (any_take _ _ _).1 hany
+        rw [(isLabel_iff l s).1 hp] at hs
+        exact Or.inr (Or.inr (Or.inr ⟨l, k, by simpa using hw, hk, j, hj, hs⟩))
+      · simp at hw
+    | jump l c => simp [stmtW] at hw
+    | ret e => simp [stmtW] at hw
+    | «include» incs => simp [stmtW] at hw
+  · rintro (⟨f, i, rfl, ⟨n, a, v, y, b, hi⟩, j, hj, n', a', v', y', b', hj'⟩ | ⟨i, k, f, a, v, y, b, hi, hw⟩ |
+      ⟨i, e, rfl, hi, hp⟩ | ⟨l, i, rfl, hi, j, hj, hj'⟩)
+    · refine ⟨i, _, hi, ?_⟩
+      have : (ss.take i).any (isFn f) = true :=
+        (any_take _ _ _).2 ⟨j, hj, _, hj', (isFn_iff f _).2 ⟨n', a', v', y', b', rfl⟩⟩
+      simp [stmtW, this]
+    · exact ⟨i, _, hi, by simp [stmtW, hw]⟩
+    · exact ⟨i, _, hi, by simp [stmtW, hp]⟩
+    · refine ⟨i, _, hi, ?_⟩
+      have : (ss.take i).any (isLabel l) = true := (any_take _ _ _).2 ⟨j, hj, _, hj', (isLabel_iff l _).2 rfl⟩
+      simp [stmtW, this]
+
+/-- what the loop of a function body emits -/
+theorem mem_fn_loop_iff {w f} {body : List Stmt} : w ∈ loopWarnings (.fn f) body ↔
+    (∃ i e, w = .pointless (.fn f) i ∧ body[i]? = some (.expr none e) ∧ isPointless e = true) ∨
+    (∃ l i, w = .redefLabel (.fn f) l i ∧ RedefinedLabelAt body l i) := by
+  show w ∈ (scopeLoop (.fn f) noFn 0 body {}).warnings ↔ _
+  rw [mem_loop_warnings]
+  constructor
+  · rintro ⟨k, s, hk, hw⟩
+    cases s with
+    | expr nm e =>
+      simp only [stmtW] at hw
+      split at hw
+      · rename_i hp
+        simp only [Bool.and_eq_true, Option.isNone_iff_eq_none] at hp
+        obtain ⟨rfl, hp⟩ := hp
+        exact Or.inl ⟨k, e, by simpa using hw, hk, hp⟩
+      · simp at hw
+    | label l =>
+      simp only [stmtW] at hw
+      split at hw
+      · rename_i hany
+        obtain ⟨j, hj, s, hs, hp⟩ := (any_take _ _ _).1 hany
+        rw [(isLabel_iff l s).1 hp] at hs
+        exact Or.inr ⟨l, k, by simpa using hw, hk, j, hj, hs⟩
+      · simp at hw
+    | function n g a v y b => simp [stmtW] at hw
+    | jump l c => simp [stmtW] at hw
+    | ret e => simp [stmtW] at hw
+    | «include» incs => simp [stmtW] at hw
+  · rintro (⟨i, e, rfl, hi, hp⟩ | ⟨l, i, rfl, hi, j, hj, hj'⟩)
+    · exact ⟨i, _, hi, by simp [stmtW, hp]⟩
+    · refine ⟨i, _, hi, ?_⟩
+      have : (body.take i).any (isLabel l) = true := (any_take _ _ _).2 ⟨j, hj, _, hj', (isLabel_iff l _).2 rfl⟩
+      simp [stmtW, this]
+
+/-! ## From the scopes to the whole output of lint -/
+
+/-- `body` is the statement list of the linted scope `sc` of the script `ss`: the script itself for the global scope, the
+body of a top-level function statement named `f` for `.fn f` (several statements may define the same name: each is a scope
+of its own and lint reports on each) -/
+def ScopeOf (ss : List Stmt) (sc : Scope) (body : List Stmt) : Prop :=
+  (sc = .global ∧ body = ss) ∨
+    ∃ (f : Name) (i k : Nat) (a : List Name) (v y : Bool), sc = .fn f ∧ ss[i]? = some (Stmt.function k f a v y body)
+
+/-- the four kinds of warning that speak about the statements and labels of one scope -/
+def labelKind (sc : Scope) : Warning → Prop
+  | .pointless s _ => s = sc
+  | .redefLabel s _ _ => s = sc
+  | .unusedLabel s _ _ => s = sc
+  | .unknownLabel s _ _ => s = sc
+  | _ => False
+
+/-- A pointless-statement / label warning of scope `sc` is in lint's output iff it is among the loop, unused-label or
+unknown-label warnings of a scope of that name. -/
+theorem mem_lint_scoped {w : Warning} {sc : Scope} (hk : labelKind sc w) (ss : List Stmt) :
+    w ∈ lint ss ↔ ∃ body, ScopeOf ss sc body ∧
+      (w ∈ loopWarnings sc body ∨ w ∈ unusedWarnings sc body ∨ w ∈ unknownWarnings sc body) := by
+  rw [lint_decomp]
+  simp only [List.mem_append]
+  constructor
+  · rintro ((((h | h) | h) | h) | h)
+    · split at h
+      · simp only [List.mem_singleton] at h; subst h; exact hk.elim
+      · simp at h
+    · obtain ⟨_, _, _, rfl⟩ := mem_usedBeforeW h; exact hk.elim
+    · rcases mem_global_loop.1 h with ⟨f, i, rfl, _⟩ | ⟨i, k, f, a, v, y, b, hi, hw⟩ | ⟨i, e, rfl, _⟩ | ⟨l, i, rfl, _⟩
+      · exact hk.elim
+      · have hf := lintFunction_inFn hw
+        have hsc : sc = .fn f := by
+          cases w <;> simp only [labelKind, inFn] at hk hf <;> first | exact hk.elim | (rw [← hk, hf])
+        subst hsc
+        refine ⟨b, Or.inr ⟨f, i, k, a, v, y, rfl, hi⟩, ?_⟩
+        rw [lintFunction_decomp] at hw
+        simp only [List.mem_append] at hw
+        rcases hw with ((((hw | hw) | hw) | hw) | hw) | hw
+        · obtain ⟨_, _, _, rfl⟩ := mem_usedBeforeW hw; exact hk.elim
+        · obtain ⟨_, _, rfl⟩ := mem_unusedVarW hw; exact hk.elim
+        · rcases mem_argLoop_shape a [] hw with ⟨_, rfl⟩ | ⟨_, rfl⟩ <;> exact hk.elim
+        · exact Or.inl hw
+        · exact Or.inr (Or.inl hw)
+        · exact Or.inr (Or.inr hw)
+      · have : sc = .global := hk.symm
+        subst this; exact ⟨ss, Or.inl ⟨rfl, rfl⟩, Or.inl h⟩
+      · have : sc = .global := hk.symm
+        subst this; exact ⟨ss, Or.inl ⟨rfl, rfl⟩, Or.inl h⟩
+    · obtain ⟨_, _, rfl⟩ := mem_unusedLabelW h
+      have : sc = .global := hk.symm
+      subst this; exact ⟨ss, Or.inl ⟨rfl, rfl⟩, Or.inr (Or.inl h)⟩
+    · obtain ⟨_, _, rfl⟩ := mem_unknownLabelW h
+      have : sc = .global := hk.symm
+      subst this; exact ⟨ss, Or.inl ⟨rfl, rfl⟩, Or.inr (Or.inr h)⟩
+  · rintro ⟨body, (⟨rfl, rfl⟩ | ⟨f, i, k, a, v, y, rfl, hi⟩), h⟩
+    · rcases h with h | h | h
+      · exact Or.inl (Or.inl (Or.inr h))
+      · exact Or.inl (Or.inr h)
+      · exact Or.inr h
+    · refine Or.inl (Or.inl (Or.inr (mem_global_loop.2 (Or.inr (Or.inl ⟨i, k, f, a, v, y, body, hi, ?_⟩)))))
+      rw [lintFunction_decomp]
+      simp only [List.mem_append]
+      rcases h with h | h | h
+      · exact Or.inl (Or.inl (Or.inr h))
+      · exact Or.inl (Or.inr h)
+      · exact Or.inr h
+
+theorem mem_unknownWarnings {sc sc' : Scope} {ss : List Stmt} {l : Name} {j : Nat} :
+    Warning.unknownLabel sc' l j ∈ unknownWarnings sc ss ↔
+      sc' = sc ∧ UnknownLabel ss l ∧ lastJumpFrom l 0 ss = some j := by
+  obtain ⟨us, hus, -, -, hmem⟩ := unknown_label_exact sc ss
+  rw [hus, List.mem_map]
+  constructor
+  · rintro ⟨⟨a, b⟩, hp, he⟩
+    simp only [Warning.unknownLabel.injEq] at he
+    obtain ⟨rfl, rfl, rfl⟩ := he
+    exact ⟨rfl, (hmem _ _).1 hp⟩
+  · rintro ⟨rfl, h⟩
+    exact ⟨(l, j), (hmem l j).2 h, rfl⟩
+
+theorem mem_unusedWarnings {sc sc' : Scope} {ss : List Stmt} {l : Name} {i : Nat} :
+    Warning.unusedLabel sc' l i ∈ unusedWarnings sc ss ↔
+      sc' = sc ∧ UnusedLabel ss l ∧ findLabel l ss = some i := by
+  obtain ⟨us, hus, -, -, hmem⟩ := unused_label_exact sc ss
+  rw [hus, List.mem_map]
+  constructor
+  · rintro ⟨⟨a, b⟩, hp, he⟩
+    simp only [Warning.unusedLabel.injEq] at he
+    obtain ⟨rfl, rfl, rfl⟩ := he
+    exact ⟨rfl, (hmem _ _).1 hp⟩
+  · rintro ⟨rfl, h⟩
+    exact ⟨(l, i), (hmem l i).2 h, rfl⟩
+
+/-- the loop of a scope emits, for that scope, exactly the pointless-statement and label-redefinition warnings -/
+theorem mem_loop_scoped {sc : Scope} {ss : List Stmt} {w : Warning} (hk : labelKind sc w) :
+    w ∈ loopWarnings sc ss ↔
+      (∃ i e, w = .pointless sc i ∧ ss[i]? = some (.expr none e) ∧ isPointless e = true) ∨
+      (∃ l i, w = .redefLabel sc l i ∧ RedefinedLabelAt ss l i) := by
+  cases sc with
+  | fn f => exact mem_fn_loop_iff
+  | global =>
+    rw [mem_global_loop]
+    constructor
+    · rintro (⟨f, i, rfl, _⟩ | ⟨i, k, f, a, v, y, b, hi, hw⟩ | h | h)
+      · exact hk.elim
+      · have hf := lintFunction_inFn hw
+        cases w <;> simp only [labelKind, inFn] at hk hf <;> first | exact hk.elim | (rw [hf] at hk; cases hk)
+      · exact Or.inl h
+      · exact Or.inr h
+    · rintro (h | h)
+      · exact Or.inr (Or.inr (Or.inl h))
+      · exact Or.inr (Or.inr (Or.inr h))
+
+/-- **unknown_label_mem_lint.**  `lint` reports `Unknown label l` for a scope (with index `j`) iff the script has a scope of
+that name — the global list, or the body of a top-level function with that name — in which some jump targets `l`, `l` is not
+defined, and `j` is the index of the last such jump. -/
+theorem unknown_label_mem_lint (ss : List Stmt) (sc : Scope) (l : Name) (j : Nat) :
+    Warning.unknownLabel sc l j ∈ lint ss ↔
+      ∃ body, ScopeOf ss sc body ∧ UnknownLabel body l ∧ lastJumpFrom l 0 body = some j := by
+  rw [mem_lint_scoped (w := .unknownLabel sc l j) (sc := sc) rfl]
+  constructor
+  · rintro ⟨body, hs, h | h | h⟩
+    · rcases (mem_loop_scoped (w := .unknownLabel sc l j) (sc := sc) rfl).1 h with ⟨_, _, h, _⟩ | ⟨_, _, h, _⟩ <;> cases h
+    · obtain ⟨_, _, h⟩ := mem_unusedLabelW h; cases h
+    · exact ⟨body, hs, (mem_unknownWarnings.1 h).2⟩
+  · rintro ⟨body, hs, h⟩
+    exact ⟨body, hs, Or.inr (Or.inr (mem_unknownWarnings.2 ⟨rfl, h⟩))⟩
+
+/-- **unused_label_mem_lint.**  `lint` reports `Unused label l` for a scope (with index `i`) iff the script has a scope of
+that name which defines `l` (first at index `i`) and in which no jump targets `l`. -/
+theorem unused_label_mem_lint (ss : List Stmt) (sc : Scope) (l : Name) (i : Nat) :
+    Warning.unusedLabel sc l i ∈ lint ss ↔
+      ∃ body, ScopeOf ss sc body ∧ UnusedLabel body l ∧ findLabel l body = some i := by
+  rw [mem_lint_scoped (w := .unusedLabel sc l i) (sc := sc) rfl]
+  constructor
+  · rintro ⟨body, hs, h | h | h⟩
+    · rcases (mem_loop_scoped (w := .unusedLabel sc l i) (sc := sc) rfl).1 h with ⟨_, _, h, _⟩ | ⟨_, _, h, _⟩ <;> cases h
+    · exact ⟨body, hs, (mem_unusedWarnings.1 h).2⟩
+    · obtain ⟨_, _, h⟩ := mem_unknownLabelW h; cases h
+  · rintro ⟨body, hs, h⟩
+    exact ⟨body, hs, Or.inr (Or.inl (mem_unusedWarnings.2 ⟨rfl, h⟩))⟩
+
+/-- **redefinition_exact (labels).**  `lint` reports `Redefinition of label l` at index `i` of a scope iff statement `i` of
+a scope of that name defines `l` and an earlier statement of the same scope already did. -/
+theorem redefinition_exact_labels (ss : List Stmt) (sc : Scope) (l : Name) (i : Nat) :
+    Warning.redefLabel sc l i ∈ lint ss ↔ ∃ body, ScopeOf ss sc body ∧ RedefinedLabelAt body l i := by
+  rw [mem_lint_scoped (w := .redefLabel sc l i) (sc := sc) rfl]
+  constructor
+  · rintro ⟨body, hs, h | h | h⟩
+    · rcases (mem_loop_scoped (w := .redefLabel sc l i) (sc := sc) rfl).1 h with ⟨_, _, h, _⟩ | ⟨l', i', h, hr⟩
+      · cases h
+      · cases h; exact ⟨body, hs, hr⟩
+    · obtain ⟨_, _, h⟩ := mem_unusedLabelW h; cases h
+    · obtain ⟨_, _, h⟩ := mem_unknownLabelW h; cases h
+  · rintro ⟨body, hs, h⟩
+    exact ⟨body, hs, Or.inl ((mem_loop_scoped (w := .redefLabel sc l i) (sc := sc) rfl).2 (Or.inr ⟨l, i, rfl, h⟩))⟩
+
+/-- **pointless_exact.**  `lint` reports a pointless statement at index `i` of a scope iff statement `i` of a scope of that
+name is an expression statement without assignment target whose expression contains no function call. -/
+theorem pointless_exact (ss : List Stmt) (sc : Scope) (i : Nat) :
+    Warning.pointless sc i ∈ lint ss ↔
+      ∃ body, ScopeOf ss sc body ∧ ∃ e, body[i]? = some (.expr none e) ∧ isPointless e = true := by
+  rw [mem_lint_scoped (w := .pointless sc i) (sc := sc) rfl]
+  constructor
+  · rintro ⟨body, hs, h | h | h⟩
+    · rcases (mem_loop_scoped (w := .pointless sc i) (sc := sc) rfl).1 h with ⟨i', e, h, hr⟩ | ⟨_, _, h, _⟩
+      · cases h; exact ⟨body, hs, e, hr⟩
+      · cases h
+    · obtain ⟨_, _, h⟩ := mem_unusedLabelW h; cases h
+    · obtain ⟨_, _, h⟩ := mem_unknownLabelW h; cases h
+  · rintro ⟨body, hs, e, h⟩
+    exact ⟨body, hs, Or.inl ((mem_loop_scoped (w := .pointless sc i) (sc := sc) rfl).2 (Or.inl ⟨i, e, rfl, h⟩))⟩
+
+/-- **redefinition_exact (functions).**  `lint` reports `Redefinition of function f` at index `i` iff statement `i` of the
+script is a function statement named `f` and an earlier statement of the script already defined a function `f`. -/
+theorem redefinition_exact_functions (ss : List Stmt) (f : Name) (i : Nat) :
+    Warning.redefFunction f i ∈ lint ss ↔ RedefinedFunctionAt ss f i := by
+  rw [lint_decomp]
+  simp only [List.mem_append]
+  constructor
+  · rintro ((((h | h) | h) | h) | h)
+    · split at h
+      · simp at h
+      · simp at h
+    · obtain ⟨_, _, _, h⟩ := mem_usedBeforeW h; cases h
+    · rcases mem_global_loop.1 h with ⟨f', i', h, hr⟩ | ⟨i', k, f', a, v, y, b, _, hw⟩ | ⟨_, _, h, _⟩ | ⟨_, _, h, _⟩
+      · cases h; exact hr
+      · exact (lintFunction_inFn hw).elim
+      · cases h
+      · cases h
+    · obtain ⟨_, _, h⟩ := mem_unusedLabelW h; cases h
+    · obtain ⟨_, _, h⟩ := mem_unknownLabelW h; cases h
+  · intro h
+    exact Or.inl (Or.inl (Or.inr (mem_global_loop.2 (Or.inl ⟨f, i, rfl, h⟩))))
+
+theorem mem_argLoop_dup {f f' a : Name} {ix ix' : Nat} {u : Dict} (args : List Name) : ∀ seen : List Name,
+    Warning.dupArg f' a ix' ∈ argLoop f ix u seen args ↔
+      f' = f ∧ ix' = ix ∧ ∃ p : Nat, args[p]? = some a ∧ (a ∈ seen ∨ ∃ j : Nat, j < p ∧ args[j]? = some a) := by
+  induction args with
+  | nil => intro seen; simp [argLoop]
+  | cons x r ih =>
+    intro seen
+    rw [argLoop]
+    by_cases hx : seen.contains x = true
+    · have hx' : x ∈ seen := by simpa using hx
+      simp only [hx, if_true, List.mem_cons, Warning.dupArg.injEq, ih]
+      constructor
+      · rintro (⟨rfl, rfl, rfl⟩ | ⟨rfl, rfl, p, hp, h⟩)
+        · exact ⟨rfl, rfl, 0, rfl, Or.inl hx'⟩
+        · refine ⟨rfl, rfl, p + 1, by simpa using hp, ?_⟩
+          rcases h with h | ⟨j, hj, hj'⟩
+          · exact Or.inl h
+          · exact Or.inr ⟨j + 1, by omega, by simpa using hj'⟩
+      · rintro ⟨rfl, rfl, p, hp, h⟩
+        cases p with
+        | zero =>
+          simp only [List.getElem?_cons_zero, Option.some.injEq] at hp
+          exact Or.inl ⟨rfl, hp.symm, rfl⟩
+        | succ p =>
+          refine Or.inr ⟨rfl, rfl, p, by simpa using hp, ?_⟩
+          rcases h with h | ⟨j, hj, hj'⟩
+          · exact Or.inl h
+          · cases j with
+            | zero =>
+              simp only [List.getElem?_cons_zero, Option.some.injEq] at hj'
+              exact Or.inl (hj' ▸ hx')
+            | succ j => exact Or.inr ⟨j, by omega, by simpa using hj'⟩
+    · have hx' : x ∉ seen := by simpa using hx
+      simp only [hx, Bool.false_eq_true, if_false, List.mem_append, ih]
+      constructor
+      · rintro (h | ⟨rfl, rfl, p, hp, h⟩)
+        · split at h <;> simp at h
+        · refine ⟨rfl, rfl, p + 1, by simpa using hp, ?_⟩
+          rcases h with h | ⟨j, hj, hj'⟩
+          · rcases List.mem_cons.1 h with h | h
+            · exact Or.inr ⟨0, by omega, by simp [h]⟩
+            · exact Or.inl h
+          · exact Or.inr ⟨j + 1, by omega, by simpa using hj'⟩
+      · rintro ⟨rfl, rfl, p, hp, h⟩
+        right
+        cases p with
+        | zero =>
+          simp only [List.getElem?_cons_zero, Option.some.injEq] at hp
+          rcases h with h | ⟨j, hj, _⟩
+          · exact absurd (hp ▸ h) hx'
+          · omega
+        | succ p =>
+          refine ⟨rfl, rfl, p, by simpa using hp, ?_⟩
+          rcases h with h | ⟨j, hj, hj'⟩
+          · exact Or.inl (List.mem_cons_of_mem _ h)
+          · cases j with
+            | zero =>
+              simp only [List.getElem?_cons_zero, Option.some.injEq] at hj'
+              exact Or.inl (hj' ▸ List.mem_cons_self)
+            | succ j => exact Or.inr ⟨j, by omega, by simpa using hj'⟩
+
+/-- **redefinition_exact (arguments).**  `lint` reports `Duplicate argument a of function f` with index `i` iff statement
+`i` of the script is a function statement named `f` one of whose argument positions repeats the earlier argument `a`. -/
+theorem redefinition_exact_args (ss : List Stmt) (f a : Name) (i : Nat) :
+    Warning.dupArg f a i ∈ lint ss ↔
+      ∃ k args v y body, ss[i]? = some (Stmt.function k f args v y body) ∧ ∃ p, DuplicateArgAt args a p := by
+  rw [lint_decomp]
+  simp only [List.mem_append]
+  constructor
+  · rintro ((((h | h) | h) | h) | h)
+    · split at h
+      · simp at h
+      · simp at h
+    · obtain ⟨_, _, _, h⟩ := mem_usedBeforeW h; cases h
+    · rcases mem_global_loop.1 h with ⟨_, _, h, _⟩ | ⟨i', k, f', args, v, y, b, hi, hw⟩ | ⟨_, _, h, _⟩ | ⟨_, _, h, _⟩
+      · cases h
+      · rw [lintFunction_decomp] at hw
+        simp only [List.mem_append] at hw
+        rcases hw with ((((hw | hw) | hw) | hw) | hw) | hw
+        · obtain ⟨_, _, _, h⟩ := mem_usedBeforeW hw; cases h
+        · obtain ⟨_, _, h⟩ := mem_unusedVarW hw; cases h
+        · obtain ⟨rfl, rfl, p, hp, h⟩ := (mem_argLoop_dup args []).1 hw
+          refine ⟨k, args, v, y, b, hi, p, hp, ?_⟩
+          rcases h with h | h
+          · simp at h
+          · exact h
+        · rcases mem_fn_loop hw with ⟨_, h⟩ | ⟨_, _, h⟩ <;> cases h
+        · obtain ⟨_, _, h⟩ := mem_unusedLabelW hw; cases h
+        · obtain ⟨_, _, h⟩ := mem_unknownLabelW hw; cases h
+      · cases h
+      · cases h
+    · obtain ⟨_, _, h⟩ := mem_unusedLabelW h; cases h
+    · obtain ⟨_, _, h⟩ := mem_unknownLabelW h; cases h
+  · rintro ⟨k, args, v, y, body, hi, p, hp, hj⟩
+    refine Or.inl (Or.inl (Or.inr (mem_global_loop.2 (Or.inr (Or.inl ⟨i, k, f, args, v, y, body, hi, ?_⟩)))))
+    rw [lintFunction_decomp]
+    simp only [List.mem_append]
+    exact Or.inl (Or.inl (Or.inl (Or.inr ((mem_argLoop_dup args []).2 ⟨rfl, rfl, p, hp, Or.inr hj⟩))))
+
+/-- two positions of a list satisfy `p` iff `p` holds at least twice -/
+theorem twice_iff_countP {α : Type} (p : α → Bool) (l : List α) :
+    (∃ i j : Nat, j < i ∧ (∃ s, l[i]? = some s ∧ p s = true) ∧ (∃ s, l[j]? = some s ∧ p s = true)) ↔ 2 ≤ l.countP p := by
+  induction l with
+  | nil => simp
+  | cons x r ih =>
+    rw [List.countP_cons]
+    constructor
+    · rintro ⟨i, j, hji, ⟨s, hs, hps⟩, ⟨t, ht, hpt⟩⟩
+      cases i with
+      | zero => omega
+      | succ i =>
+        simp only [List.getElem?_cons_succ] at hs
+        cases j with
+        | zero =>
+          simp only [List.getElem?_cons_zero, Option.some.injEq] at ht
+          subst ht
+          have : 0 < r.countP p := List.countP_pos_iff.2 ⟨s, List.mem_of_getElem? hs, hps⟩
+          simp only [hpt, if_true]; omega
+        | succ j =>
+          simp only [List.getElem?_cons_succ] at ht
+          have := ih.1 ⟨i, j, by omega, ⟨s, hs, hps⟩, ⟨t, ht, hpt⟩⟩
+          omega
+    · intro h
+      by_cases hx : p x = true
+      · simp only [hx, if_true] at h
+        have : 0 < r.countP p := by omega
+        obtain ⟨s, hs, hps⟩ := List.countP_pos_iff.1 this
+        obtain ⟨m, hm⟩ := List.getElem?_of_mem hs
+        exact ⟨m + 1, 0, by omega, ⟨s, by simpa using hm, hps⟩, ⟨x, rfl, hx⟩⟩
+      · simp only [hx, Bool.false_eq_true, if_false, Nat.add_zero] at h
+        obtain ⟨i, j, hji, ⟨s, hs, hps⟩, ⟨t, ht, hpt⟩⟩ := ih.2 h
+        exact ⟨i + 1, j + 1, by omega, ⟨s, by simpa using hs, hps⟩, ⟨t, by simpa using ht, hpt⟩⟩
+
+/-- **redefined_iff_defined_twice.**  A redefinition is reported for a name exactly when the scope / script / argument list
+defines it more than once. -/
+theorem redefined_iff_defined_twice :
+    (∀ (ss : List Stmt) (l : Name), (∃ i, RedefinedLabelAt ss l i) ↔ 2 ≤ ss.countP (isLabel l)) ∧
+    (∀ (ss : List Stmt) (f : Name), (∃ i, RedefinedFunctionAt ss f i) ↔ 2 ≤ ss.countP (isFn f)) ∧
+    (∀ (args : List Name) (a : Name), (∃ p, DuplicateArgAt args a p) ↔ 2 ≤ args.countP (· == a)) := by
+  refine ⟨fun ss l => ?_, fun ss f => ?_, fun args a => ?_⟩
+  · rw [← twice_iff_countP]
+    constructor
+    · rintro ⟨i, hi, j, hj, hj'⟩
+      exact ⟨i, j, hj, ⟨_, hi, (isLabel_iff l _).2 rfl⟩, ⟨_, hj', (isLabel_iff l _).2 rfl⟩⟩
+    · rintro ⟨i, j, hj, ⟨s, hs, hps⟩, ⟨t, ht, hpt⟩⟩
+      rw [(isLabel_iff l s).1 hps] at hs
+      rw [(isLabel_iff l t).1 hpt] at ht
+      exact ⟨i, hs, j, hj, ht⟩
+  · rw [← twice_iff_countP]
+    constructor
+    · rintro ⟨i, ⟨k, a, v, y, b, hi⟩, j, hj, k', a', v', y', b', hj'⟩
+      exact ⟨i, j, hj, ⟨_, hi, (isFn_iff f _).2 ⟨_, _, _, _, _, rfl⟩⟩, ⟨_, hj', (isFn_iff f _).2 ⟨_, _, _, _, _, rfl⟩⟩⟩
+    · rintro ⟨i, j, hj, ⟨s, hs, hps⟩, ⟨t, ht, hpt⟩⟩
+      obtain ⟨k, a, v, y, b, rfl⟩ := (isFn_iff f s).1 hps
+      obtain ⟨k', a', v', y', b', rfl⟩ := (isFn_iff f t).1 hpt
+      exact ⟨i, ⟨k, a, v, y, b, hs⟩, j, hj, k', a', v', y', b', ht⟩
+  · rw [← twice_iff_countP]
+    constructor
+    · rintro ⟨i, hi, j, hj, hj'⟩
+      exact ⟨i, j, hj, ⟨_, hi, by simp⟩, ⟨_, hj', by simp⟩⟩
+    · rintro ⟨i, j, hj, ⟨s, hs, hps⟩, ⟨t, ht, hpt⟩⟩
+      simp only [beq_iff_eq] at hps hpt
+      subst hps; subst hpt
+      exact ⟨i, hs, j, hj, ht⟩
+
+theorem specW_split {sc onFn} (ss : List Stmt) : ∀ (pre : List Stmt) (ix i : Nat) (s : Stmt), ss[i]? = some s →
+    ∃ A B, specW sc onFn pre ix ss = A ++ stmtW sc onFn (pre ++ ss.take i) (ix + i) s ++ B := by
+  induction ss with
+  | nil => intro pre ix i s h; simp at h
+  | cons x r ih =>
+    intro pre ix i s h
+    cases i with
+    | zero =>
+      simp only [List.getElem?_cons_zero, Option.some.injEq] at h
+      subst h
+      exact ⟨[], specW sc onFn (pre ++ [x]) (ix + 1) r, by simp [specW]⟩
+    | succ i =>
+      simp only [List.getElem?_cons_succ] at h
+      obtain ⟨A, B, hAB⟩ := ih (pre ++ [x]) (ix + 1) i s h
+      refine ⟨stmtW sc onFn pre ix x ++ A, B, ?_⟩
+      have e : ix + 1 + i = ix + (i + 1) := by omega
+      rw [specW, hAB, e]
+      simp [List.append_assoc]
+
+/-- **lint_function_block.**  For every top-level function statement (index `i`) the output of lint contains, as one
+contiguous block, the per-function report `lintFunction i f args body`, which ends with that function's own unused-label and
+unknown-label warnings (`lintFunction_decomp`). -/
+theorem lint_function_block (ss : List Stmt) (i k : Nat) (f : Name) (args : List Name) (v y : Bool) (body : List Stmt)
+    (h : ss[i]? = some (Stmt.function k f args v y body)) :
+    ∃ pre post, lint ss = pre ++ lintFunction i f args body ++ post := by
+  have hl : loopWarnings .global ss = specW .global lintFunction [] 0 ss := by
+    show (scopeLoop .global lintFunction 0 ss {}).warnings = _
+    rw [loop_warnings .global lintFunction ss [] 0 {} (inv_init _)]; rfl
+  obtain ⟨A, B, hAB⟩ := specW_split (sc := .global) (onFn := lintFunction) ss [] 0 i _ h
+  rw [lint_decomp, hl, hAB]
+  simp only [stmtW, Nat.zero_add, List.nil_append]
+  refine ⟨(if ss.isEmpty then [Warning.emptyScript] else []) ++
+      usedBeforeW .global [] (varScan 0 ss [] []).1 (varScan 0 ss [] []).2 ++ A ++
+      (if (ss.take i).any (isFn f) = true then [Warning.redefFunction f i] else []),
+    B ++ unusedWarnings .global ss ++ unknownWarnings .global ss, ?_⟩
+  simp only [List.append_assoc]
+
+/-- **lint_total_pure.**  In the model `lintScript` is a function `List Stmt → List String`: it is defined on every model
+(no failure value exists in its type), its result is determined by the model alone (same model, same warnings), and it has
+no way to modify its argument — "the model is returned unchanged" is not a statement about a pure function, so that part of
+the property (and "never raises" for the Python) is carried by the purity oracle of the correspondence check. -/
+theorem lint_total_pure (ss : List Stmt) :
+    (∃ ws : List String, lintScript ss = ws) ∧ ∀ ss' : List Stmt, ss' = ss → lintScript ss' = lintScript ss :=
+  ⟨⟨_, rfl⟩, fun _ h => by rw [h]⟩
+
+/-! ## Non-vacuity: one model with duplicate labels, dangling jumps, duplicate functions and duplicate arguments
+
+The same model is case `lean-example` of `harness/corpus/C18.jsonl`, where the implementation's output is compared with the
+model's: `Pointless global statement (index 1)`, `Redefinition of global label "a" (index 2)`, `Unused argument "p" …`,
+`Duplicate argument "p" of function "f" (index 4)`, `Redefinition of label "a" in function "f" (index 2)`,
+`Unused label "a" in function "f" (index 0)`, `Unused label "u" in function "f" (index 3)`,
+`Unknown label "x" in function "f" (index 1)`, `Redefinition of function "f" (index 5)`,
+`Unused global label "a" (index 0)`, `Unknown global label "x" (index 6)`. -/
+
+def exBody : List Stmt :=
+  [.label (.user "a"), .jump (.user "x") none, .label (.user "a"), .label (.user "u")]
+
+def exScript : List Stmt := [
+  .label (.user "a"),
+  .expr none (.variable (.user "v")),
+  .label (.user "a"),
+  .jump (.user "x") none,
+  .function 0 (.user "f") [.user "p", .user "p"] false false exBody,
+  .function 1 (.user "f") [] false false [],
+  .jump (.user "x") (some (.variable (.user "c")))]
+
+theorem exBody_scope : ScopeOf exScript (.fn (.user "f")) exBody :=
+  Or.inr ⟨.user "f", 4, 0, [.user "p", .user "p"], false, false, rfl, rfl⟩
+
+theorem exScript_scope : ScopeOf exScript .global exScript := Or.inl ⟨rfl, rfl⟩
+
+/-- `unknownLabels` is inhabited in both scopes, and lint reports exactly these (global: the *last* jump, index 6) -/
+example : UnknownLabel exScript (.user "x") := ⟨⟨none, by simp [exScript]⟩, by simp [DefinedIn, exScript]⟩
+example : Warning.unknownLabel .global (.user "x") 6 ∈ lint exScript :=
+  (unknown_label_mem_lint _ _ _ _).2
+    ⟨_, exScript_scope, ⟨⟨none, by simp [exScript]⟩, by simp [DefinedIn, exScript]⟩, by decide⟩
+example : Warning.unknownLabel (.fn (.user "f")) (.user "x") 1 ∈ lint exScript :=
+  (unknown_label_mem_lint _ _ _ _).2
+    ⟨_, exBody_scope, ⟨⟨none, by simp [exBody]⟩, by simp [DefinedIn, exBody]⟩, by decide⟩
+/-- the label `a` is defined in both scopes, so it is *not* unknown in either: scopes do not leak -/
+example : ∀ sc j, Warning.unknownLabel sc (.user "a") j ∉ lint exScript := by
+  intro sc j h
+  obtain ⟨body, hs, ⟨⟨c, hc⟩, hd⟩, _⟩ := (unknown_label_mem_lint _ _ _ _).1 h
+  rcases hs with ⟨_, rfl⟩ | ⟨f, i, k, a, v, y, _, hi⟩
+  · exact hd (by simp [DefinedIn, exScript])
+  · have : i < exScript.length := (List.getElem?_eq_some_iff.1 hi).1
+    have hi' : i < 7 := this
+    rcases i with _ | _ | _ | _ | _ | _ | _ | i
+    all_goals first
+      | omega
+      | (simp only [exScript, List.getElem?_cons_zero, List.getElem?_cons_succ, Option.some.injEq, reduceCtorEq] at hi)
+      | skip
+    · simp only [Stmt.function.injEq] at hi
+      obtain ⟨-, -, -, -, -, rfl⟩ := hi
+      exact hd (by simp [DefinedIn, exBody])
+    · simp only [Stmt.function.injEq] at hi
+      obtain ⟨-, -, -, -, -, rfl⟩ := hi
+      simp at hc
+/-- the bridge: the dangling jump is exactly where the interpreter's label search fails -/
+example : findLabel (.user "x") exScript = none ∧ findLabel (.user "a") exBody = some 0 := by decide
+example : ∃ j, Warning.unknownLabel .global (.user "x") j ∈ unknownWarnings .global exScript :=
+  (jump_reported_iff_findLabel_none .global exScript (.user "x") none (by simp [exScript])).2 (by decide)
+/-- unused labels, redefinitions of labels / functions / arguments, pointless statement: all inhabited -/
+example : Warning.unusedLabel (.fn (.user "f")) (.user "u") 3 ∈ lint exScript :=
+  (unused_label_mem_lint _ _ _ _).2
+    ⟨_, exBody_scope, ⟨by simp [DefinedIn, exBody], by rintro ⟨c, hc⟩; simp [exBody] at hc⟩, by decide⟩
+example : Warning.redefLabel .global (.user "a") 2 ∈ lint exScript :=
+  (redefinition_exact_labels _ _ _ _).2 ⟨_, exScript_scope, rfl, 0, by omega, rfl⟩
+example : Warning.redefLabel (.fn (.user "f")) (.user "a") 2 ∈ lint exScript :=
+  (redefinition_exact_labels _ _ _ _).2 ⟨_, exBody_scope, rfl, 0, by omega, rfl⟩
+example : Warning.redefFunction (.user "f") 5 ∈ lint exScript :=
+  (redefinition_exact_functions _ _ _).2 ⟨⟨_, _, _, _, _, rfl⟩, 4, by omega, _, _, _, _, _, rfl⟩
+example : Warning.redefFunction (.user "f") 4 ∉ lint exScript := by
+  intro h
+  obtain ⟨-, j, hj, k, a, v, y, b, hb⟩ := (redefinition_exact_functions _ _ _).1 h
+  rcases j with _ | _ | _ | _ | j
+  all_goals first
+    | omega
+    | simp [exScript] at hb
+example : Warning.dupArg (.user "f") (.user "p") 4 ∈ lint exScript :=
+  (redefinition_exact_args _ _ _ _).2 ⟨_, _, _, _, _, rfl, 1, rfl, 0, by omega, rfl⟩
+example : Warning.pointless .global 1 ∈ lint exScript :=
+  (pointless_exact _ _ _).2 ⟨_, exScript_scope, _, rfl, rfl⟩
+example : (2 ≤ exScript.countP (isLabel (.user "a"))) ∧ (2 ≤ exScript.countP (isFn (.user "f"))) := by decide
+
 end C18
